@@ -314,6 +314,30 @@ def header_views_confined(ctx, rule='C12.header-views-confined'):
                                '%s views a page as a header through %s at %s without being the validating selection or a builder of header images: the page it looks at may be the '
                                'damaged or half-written one, and whatever it decides (an assertion, a comparison of transaction ids) is decided on unvalidated bytes' % (fn.qual, v.qual, fn.loc(bb)),
                                where=fn.loc(bb)))
+    # ... nor is a header PAGE looked at as a plain page (its page-header fields are not covered by the checksum): no page view whose id is the slot number
+    mv = ctx.A.get('map-view')
+    import c16
+    for fn in sorted(F.fns, key=lambda g: g.path):
+        owner = (fn.owner or fn) if fn.kind == 'Closure' else fn
+        if owner not in on_path or owner in allowed:
+            continue
+        du = None
+        for bb in sorted(fn.reachable_blocks()):
+            t = fn.term(bb)
+            c = callee_of(t) if t['k'] == 'call' else None
+            if not c or len(t['args']) < 2:
+                continue
+            tgt = F.by_path.get((c.get('resolved') or {}).get('path') or c['path'])
+            if tgt is None or not (tgt is mv or (tgt.self_adt and last_seg(tgt.self_adt) == 'Page' and tgt.name == 'from_buf')):
+                continue
+            du = du or ctx.du(fn)
+            e = du.sym(t['args'][1])
+            if c16._tree_has(e, lambda x: x[0] == 'field' and x[2] and x[2][-1] == 'meta_page'):
+                n += 1
+                res.append(bad(rule, '%s | views a header page as a plain page' % fn.qual,
+                               '%s looks at the page whose id is the header slot number (%s at %s): the page-header fields of a header page (count, overflow ...) are not covered '
+                               'by the checksum, so a value kept there is trusted although a single changed byte leaves the header "valid"' % (fn.qual, c16._fmt(e)[:50], fn.loc(bb)),
+                               where=fn.loc(bb)))
     if not any(not r.ok for r in res):
         res.append(ok(rule, 'header structs are viewed at %d sites, all in header selection, creation and the commit\'s image builder' % n, sites=n))
     return res
@@ -568,6 +592,8 @@ def run(ctx, tier):
     results += select_total(ctx)
     results += selection_always_validates(ctx)
     results += header_views_confined(ctx)
+    import c05
+    results += c05.no_narrowing(ctx, rule='C12.no-narrowing')
     results += seal_last(ctx)
     results += kind_exact(ctx)
     results += header_extent(ctx)
